@@ -231,7 +231,7 @@ impl RawCel<RawPixels> {
             }
             CelContent::Tilemap(tilemap) => {
                 if let LayerType::Tilemap(_) = layers[cel_id.layer as u32].layer_type {
-                    // all good
+                    tilemap.validate_size()?;
                 } else {
                     return Err(AsepriteParseError::InvalidInput(format!(
                         "Invalid cel. Tilemap Cel ({}) outside of tilemap layer.",
